@@ -50,7 +50,7 @@ Lemma C27_refuted_multiline :
     q_role req = RViewer /\ role_of (w_acls w) (q_user req) g = Some KViewer /\
     kg_content (d_world (handle_pinned req w)) g <> kg_content w g.
 Proof.
-  exists (Req RViewer 3 true 1 None [Some (St SInsert None (EIns 201) 0 None); Some (St SInsert None (EIns 202) 0 None)]),
+  exists (Req RViewer 3 (Some 1) 1 None [Some (St SInsert None (EIns 201) 0 None); Some (St SInsert None (EIns 202) 0 None)]),
          viewer_bob_on_default, 1.
   vm_compute. repeat split; congruence.
 Qed.
@@ -61,22 +61,22 @@ Lemma C27_refuted_kg_switch :
     q_role req = RViewer /\ role_of (w_acls w) (q_user req) g = None /\
     kg_content w g <> None /\ kg_content (d_world (handle_pinned req w)) g = None.
 Proof.
-  exists (Req RViewer 3 true 1 None [Some (St MKgDrop (Some 2) ENone 0 None)]), viewer_bob_on_default, 2.
+  exists (Req RViewer 3 (Some 1) 1 None [Some (St MKgDrop (Some 2) ENone 0 None)]), viewer_bob_on_default, 2.
   vm_compute. repeat split; congruence.
 Qed.
 
 (* the repaired handler refuses both *)
 Example C27_fixed_witnesses :
-  d_dec (handle (Req RViewer 3 true 1 None [Some (St SInsert None (EIns 201) 0 None); Some (St SInsert None (EIns 202) 0 None)])
+  d_dec (handle (Req RViewer 3 (Some 1) 1 None [Some (St SInsert None (EIns 201) 0 None); Some (St SInsert None (EIns 202) 0 None)])
                 viewer_bob_on_default) = Denied /\
-  d_dec (handle (Req RViewer 3 true 1 None [Some (St MKgDrop (Some 2) ENone 0 None)]) viewer_bob_on_default) = Denied.
+  d_dec (handle (Req RViewer 3 (Some 1) 1 None [Some (St MKgDrop (Some 2) ENone 0 None)]) viewer_bob_on_default) = Denied.
 Proof. vm_compute. split; reflexivity. Qed.
 
 (* non-vacuity: an editor's multi-line program with a KG switch is executed and changes the
    graph it is allowed to write (so the theorems are not about refused requests only) *)
 Example C27_nonvacuous :
   let w := World [(0, []); (1, [MT; MF 100]); (2, [MT; MF 100])] [(1, 2, KEditor); (2, 2, KOwner)] in
-  let req := Req REditor 2 true 1 None
+  let req := Req REditor 2 (Some 1) 1 None
                  [Some (St SInsert None (EIns 201) 0 None); Some (St MKgUse (Some 2) ENone 0 None);
                   Some (St SDelete None (EDel 100) 0 None)] in
   req_wf req = true /\ d_dec (handle req w) = Ran /\ length (d_trace (handle req w)) = 3%nat /\
